@@ -1,5 +1,6 @@
 import BbRe.Model.FileRef
 import BbRe.Lemmas.FileRefProps
+import BbRe.Lemmas.FileRefChecked
 /-!
 # C16 — writable files live exactly as long as referenced; uploads match
 
@@ -11,8 +12,10 @@ arbitrary naturals), any interleaving of open/close with any share mask,
 link/unlink, read/seek, write, truncate, allocate, set-attributes, uploads, frozen
 opens, output-service stats, completions of the CAS `Put` (ok or error), firings of
 the delay channels and pool-file faults, for files with and without a handle
-allocator in front (`layered`).  `Reachable` only contains steps that respect the
-caller contract `legal` (see `Model/FileRef.lean`).  Helper lemmas:
+allocator in front (`layered`), for the code as it is now (`checked = true`, fix 17054c0)
+and as it was before (`checked = false`).  `Reachable` only contains steps that respect the
+caller contract `legal` (see `Model/FileRef.lean`); for the current code that contract says
+nothing about the mutating calls (`mutating_calls_need_no_contract`).  Helper lemmas:
 `BbRe/Lemmas/FileRef*.lean`.  The model is tied to the Go code by
 `harness/cmd/fileref` on every run.
 -/
@@ -69,14 +72,16 @@ theorem close_exactly_once {s s' : State} {o : Out} (op : Op) (h : Reachable s)
 
 example : ∃ s s' : State, ∃ o : Out, Reachable s ∧ legal s .unlink = true ∧ step s .unlink = some (s', o) ∧
     0 < s.refs ∧ s'.refs = 0 ∧ s'.closeCalls = 1 :=
-  ⟨init true false 0 ⟨false, false⟩, _, _, Reachable.init _ _ _ _, rfl, rfl, by decide, rfl, rfl⟩
+  ⟨init true true false 0 ⟨false, false⟩, _, _, Reachable.init _ _ _ _ _, rfl, rfl, by decide, rfl, rfl⟩
 
 /-- `no_use_after_close`: once the last reference is gone (the pool file has been closed),
 every further step the caller contract allows keeps `referenceCount = 0`, does not call
 `Close` again, leaves the contents alone and does not panic (in the model every access to
 the released pool file is a panic: `f.file` is nil); `Link`, `VirtualOpenSelf` with or
-without `O_TRUNC` return `StatusErrStale`; uploads, frozen opens and output-service stats
-return NotFound (`CleanFail`). -/
+without `O_TRUNC`, `VirtualAllocate`, `VirtualSetAttributes` with a size return
+`StatusErrStale`, `VirtualWrite` returns `(0, StatusErrStale)`; uploads, frozen opens and
+output-service stats return NotFound (`CleanFail`).  For the current code `legal` only
+restricts `Unlink`, `VirtualClose`, `VirtualRead` and `VirtualSeek`. -/
 theorem no_use_after_close {s s' : State} {o : Out} (op : Op) (h : Reachable s) (hc : s.closed = true)
     (hl : legal s op = true) (hs : step s op = some (s', o)) :
     s'.refs = 0 ∧ s'.closed = true ∧ s'.closeCalls = 1 ∧ s'.bytes = s.bytes ∧ s'.panicked = false ∧
@@ -91,22 +96,72 @@ theorem no_use_after_close {s s' : State} {o : Out} (op : Op) (h : Reachable s) 
 region query ever reaches a pool file that has been released. -/
 theorem no_panic {s : State} (h : Reachable s) : s.panicked = false := (inv_reachable h).noPanic
 
-/-- The contract of `no_use_after_close` is needed and is *not* enforced by the code for
-calls that wait in `lockMutatingData`: a size change by path that is parked behind a frozen
-reader while the file still has its directory entry resumes after the entry and the frozen
-reader are gone, and `virtualTruncate` dereferences the nil pool file (model: `panic`).
-`VirtualOpenSelf(O_TRUNC)` re-checks `referenceCount` after the wait; `VirtualSetAttributes`,
-`VirtualWrite` and `VirtualAllocate` do not. -/
+/-- In the current code the caller contract demands nothing for the calls that go through
+`lockMutatingData` — neither when they are issued nor when they resume after the wait. -/
+theorem mutating_calls_need_no_contract {s : State} (hc : s.checked = true) (t : Nat) (op : MutOp) :
+    legal s (.mbegin t op) = true ∧ legal s (.mwake t) = true := by
+  constructor
+  · simp [legal, hc]
+  · show (match s.pc t with
+      | .mutWait op _ => s.checked || mutContract s op
+      | _ => true) = true
+    split <;> simp [hc]
+
+/-- Which version of the code a run models never changes. -/
+theorem checked_invariant {s s' : State} {o : Out} (op : Op) (hs : step s op = some (s', o)) :
+    s'.checked = s.checked := step_checked op hs
+
+/-- `no_use_after_close` for parked calls, without any contract (current code): a write,
+allocation, size change or `O_TRUNC` open that is issued on, or resumes on, a file whose last
+reference is gone leaves everything alone, does not panic and returns `StatusErrStale`
+(`VirtualWrite`: `(0, StatusErrStale)`) — whatever happened to the caller's descriptor or
+directory entry while it waited. -/
+theorem no_use_after_close_mutating {s s' : State} {o : Out} (op : Op) (h : Reachable s)
+    (hck : s.checked = true) (hc : s.closed = true)
+    (hop : (∃ t mop, op = .mbegin t mop) ∨ (∃ t, op = .mwake t))
+    (hs : step s op = some (s', o)) :
+    s'.refs = 0 ∧ s'.closed = true ∧ s'.closeCalls = 1 ∧ s'.bytes = s.bytes ∧ s'.panicked = false ∧
+    (o = .st .stale ∨ o = .wrote 0 .stale) := by
+  have hl : legal s op = true := by
+    rcases hop with ⟨t, mop, rfl⟩ | ⟨t, rfl⟩
+    · exact (mutating_calls_need_no_contract hck t mop).1
+    · exact (mutating_calls_need_no_contract hck t (.alloc 0 0)).2
+  have r := no_use_after_close op h hc hl hs
+  refine ⟨r.1, r.2.1, r.2.2.1, r.2.2.2.1, r.2.2.2.2.1, ?_⟩
+  have cf := r.2.2.2.2.2
+  rcases hop with ⟨t, mop, rfl⟩ | ⟨t, rfl⟩
+  · exact cf
+  · exact cf
+
+/-- In the current code no call that waited in `lockMutatingData` can panic, whatever the
+other threads did meanwhile (the resumed step is always allowed, so its result is reachable). -/
+theorem resumed_call_never_panics {s s' : State} {o : Out} {t : Nat} (h : Reachable s)
+    (hck : s.checked = true) (hs : step s (.mwake t) = some (s', o)) : s'.panicked = false :=
+  no_panic (Reachable.step (.mwake t) h (mutating_calls_need_no_contract hck t (.alloc 0 0)).2 hs)
+
+/-- Before fix 17054c0 (`checked = false`) the contract for parked calls was needed and was
+*not* enforceable by the caller: a size change by path that is parked behind a frozen reader
+while the file still has its directory entry resumes after the entry and the frozen reader
+are gone, and `virtualTruncate` dereferences the nil pool file (model: `panic`).
+`VirtualOpenSelf(O_TRUNC)` re-checked `referenceCount` after the wait; `VirtualSetAttributes`,
+`VirtualWrite` and `VirtualAllocate` did not. -/
 theorem resumed_size_change_hits_released_file :
-    (run (init true false 3 ⟨false, false⟩)
+    (run (init false true false 3 ⟨false, false⟩)
       [.ubegin 1 false none 0, .mbegin 2 (.setattr 1 none), .unlink, .fclose 1, .mwake 2]).2
       = [.opened, .parked, .st .ok, .st .ok, .panic] := by
   decide
 
+/-- The same history on the current code: the resumed size change fails cleanly. -/
+theorem resumed_size_change_fails_cleanly :
+    (run (init true true false 3 ⟨false, false⟩)
+      [.ubegin 1 false none 0, .mbegin 2 (.setattr 1 none), .unlink, .fclose 1, .mwake 2, .link]).2
+      = [.opened, .parked, .st .ok, .st .ok, .st .stale, .st .stale] := by
+  decide
+
 example : ∃ s s' : State, ∃ o : Out, Reachable s ∧ s.closed = true ∧ legal s .link = true ∧
     step s .link = some (s', o) ∧ o = .st .stale :=
-  ⟨(release { init true false 0 ⟨false, false⟩ with linkCount := 0 } 1), _, _,
-    Reachable.step (s := init true false 0 ⟨false, false⟩) .unlink (Reachable.init _ _ _ _) rfl rfl,
+  ⟨(release { init true true false 0 ⟨false, false⟩ with linkCount := 0 } 1), _, _,
+    Reachable.step (s := init true true false 0 ⟨false, false⟩) .unlink (Reachable.init _ _ _ _ _) rfl rfl,
     rfl, rfl, rfl, rfl⟩
 
 /-- `frozen_excludes_writes`: while at least one frozen reader exists no step changes the
@@ -116,7 +171,7 @@ theorem frozen_excludes_writes {s s' : State} {o : Out} (op : Op) (hf : 0 < s.fr
     (hs : step s op = some (s', o)) : s'.bytes = s.bytes :=
   step_bytes_frozen op hf hs
 
-example : (step ({ init true false 0 ⟨false, true⟩ with frozen := 1 }) (.mbegin 7 (.write 0 [1]))).map (·.2)
+example : (step ({ init true true false 0 ⟨false, true⟩ with frozen := 1 }) (.mbegin 7 (.write 0 [1]))).map (·.2)
     = some .parked := by decide
 
 /-- `cached_digest_valid`: a cached digest is always the digest of the current contents
@@ -189,7 +244,7 @@ theorem stat_matches {s s' : State} {t : Nat} {d : Digest} (h : Reachable s)
 fires, the upload proceeds, the writer's next write parks, the upload returns the digest of
 what it stored. -/
 example :
-    (run (init true false 0 ⟨false, true⟩)
+    (run (init true true false 0 ⟨false, true⟩)
       [.mbegin 1 (.write 0 [1, 2, 3]), .ubegin 2 true (some 1) 0, .fire 1, .uwake 2 true, .udigest 2,
        .mbegin 3 (.write 0 [7, 7]), .putDone 2 true, .mwake 3, .persist]).2
       = [.wrote 3 .ok, .parked, .st .ok, .opened, .putting (0, [1, 2, 3]), .parked,
@@ -281,8 +336,8 @@ theorem writers_wait_bounded_waits {s s' : State} {o : Out} {t : Nat} {u : Bool}
         | omega
 
 example : ∃ s : State, Reachable s ∧ s.pc 2 = .upWait true (some 1) 0 false ∧ 0 < s.writers :=
-  ⟨(init true false 0 ⟨false, true⟩).setPc 2 (.upWait true (some 1) 0 false),
-    Reachable.step (s := init true false 0 ⟨false, true⟩) (.ubegin 2 true (some 1) 0) (Reachable.init _ _ _ _) rfl rfl,
+  ⟨(init true true false 0 ⟨false, true⟩).setPc 2 (.upWait true (some 1) 0 false),
+    Reachable.step (s := init true true false 0 ⟨false, true⟩) (.ubegin 2 true (some 1) 0) (Reachable.init _ _ _ _ _) rfl rfl,
     by simp [State.setPc], by decide⟩
 
 /-- No lost wake-up for writers: a mutating call parked behind frozen readers has been
